@@ -58,6 +58,8 @@ int main()
   S.fresh();
   int nbias = 0;
   std::map<std::string, colvarbias_opes *> opes_cache;
+  std::map<colvar *, colvarbias_restraint_harmonic *> hb_cache;
+  std::map<colvar *, colvarbias_restraint_harmonic_walls *> hw_cache;
   std::map<std::string, colvar *> cache;
   int ncv = 0;
   auto get_cv = [&](std::string const &key, std::string const &body) -> colvar * {
@@ -178,6 +180,47 @@ int main()
         double q[4]; for (int i = 0; i < 4; i++) q[i] = nf();
         colvarvalue x(cvm::quaternion(q[0], q[1], q[2], q[3])); x.apply_constraints(); o << vs_hex(x) << "\n";
       }
+    } else if (cmd == "AR") {
+      // colvarvalue arithmetic: AR type a x1 x2 -> x1 + x2, x1 - x2, a * x1, x1 / a
+      std::string t = a[p++];
+      double f = nf();
+      colvarvalue x1, x2;
+      if (t == "SC") { x1 = colvarvalue(nf()); x2 = colvarvalue(nf()); }
+      else if (t == "UV" || t == "V3") {
+        colvarvalue::Type ty = (t == "UV") ? colvarvalue::type_unit3vector : colvarvalue::type_3vector;
+        cvm::rvector u = v3(), v = v3(); x1 = colvarvalue(u, ty); x2 = colvarvalue(v, ty);
+      } else if (t == "Q") {
+        double q[8]; for (int i = 0; i < 8; i++) q[i] = nf();
+        x1 = colvarvalue(cvm::quaternion(q[0], q[1], q[2], q[3])); x2 = colvarvalue(cvm::quaternion(q[4], q[5], q[6], q[7]));
+      } else {
+        int n = ni();
+        cvm::vector1d<cvm::real> v1(n), v2(n);
+        for (int i = 0; i < n; i++) v1[i] = nf();
+        for (int i = 0; i < n; i++) v2[i] = nf();
+        x1 = colvarvalue(v1, colvarvalue::type_vector); x2 = colvarvalue(v2, colvarvalue::type_vector);
+      }
+      o << vs_hex(x1 + x2) << " " << vs_hex(x1 - x2) << " " << vs_hex(f * x1) << " " << vs_hex(x1 / f) << "\n";
+    } else if (cmd == "ERR") {
+      // operations that are documented errors: distance / gradient between "derivative" types, interpolation outside [0,1]
+      std::string t = a[p++];
+      cvm::clear_error();
+      if (t == "UVD") {
+        colvarvalue x1(cvm::rvector(1, 0, 0), colvarvalue::type_unit3vectorderiv), x2(cvm::rvector(0, 1, 0), colvarvalue::type_unit3vectorderiv);
+        x1.dist2(x2); int e1 = cvm::get_error() ? 1 : 0; cvm::clear_error();
+        x1.dist2_grad(x2); int e2 = cvm::get_error() ? 1 : 0;
+        o << H(e1) << " " << H(e2) << "\n";
+      } else if (t == "QD") {
+        colvarvalue x1(cvm::quaternion(1, 0, 0, 0), colvarvalue::type_quaternionderiv), x2(cvm::quaternion(0, 1, 0, 0), colvarvalue::type_quaternionderiv);
+        x1.dist2(x2); int e1 = cvm::get_error() ? 1 : 0; cvm::clear_error();
+        x1.dist2_grad(x2); int e2 = cvm::get_error() ? 1 : 0;
+        o << H(e1) << " " << H(e2) << "\n";
+      } else {
+        double l = nf();
+        colvarvalue x1(1.0), x2(2.0);
+        colvarvalue::interpolate(x1, x2, l); int e1 = cvm::get_error() ? 1 : 0;
+        o << H(e1) << " " << H(e1) << "\n";
+      }
+      cvm::clear_error();
     } else if (cmd == "INN") {
       // inner product (operator *) and norm2 of colvarvalues
       std::string t = a[p++];
@@ -197,7 +240,7 @@ int main()
         colvarvalue x1(v1, colvarvalue::type_vector), x2(v2, colvarvalue::type_vector);
         o << H(x1 * x2) << " " << H(x1.norm2()) << "\n";
       }
-    } else if (cmd == "CD" || cmd == "CW") {
+    } else if (cmd == "CD" || cmd == "CW" || cmd == "HB" || cmd == "FV") {
       // a real single-component variable of the given kind: colvar::dist2, dist2_lgrad, dist2_rgrad (CD) or colvar::wrap (CW)
       std::string kind = a[p++];
       double wc = nf();
@@ -245,6 +288,13 @@ int main()
           full = "  " + kind + " {\n    distance {\n  " + dst + "    }\n    pathFile c18path.txt\n" + ((kind[0] == 'a') ? "    lambda 1.0\n" : "") + "  }\n";
         }
       }
+      else if (kind.compare(0, 10, "distanceZ:") == 0) {
+        // periodic distanceZ with a user period and wrapAround: "distanceZ:<period>"
+        double P = num(kind.substr(10));
+        comp = "distanceZ";
+        char pb[256]; snprintf(pb, sizeof(pb), "    period %.17g\n", P);
+        body = std::string("    main { atomNumbers 1 }\n    ref { dummyAtom (0,0,0) }\n    axis (0,0,1)\n") + pb; periodic = true;
+      }
       else if (kind.compare(0, 9, "scripted:") == 0) {
         // periodic scripted variable: "scripted:<period>"; the component is a plain distanceZ
         double P = num(kind.substr(9));
@@ -273,6 +323,36 @@ int main()
       if (cmd == "CD") {
         colvarvalue x1 = rd(proto), x2 = rd(proto);
         o << H(cv->dist2(x1, x2)) << " " << vs_hex(cv->dist2_lgrad(x1, x2)) << " " << vs_hex(cv->dist2_rgrad(x1, x2)) << "\n";
+      } else if (cmd == "HB") {
+        // a real harmonic restraint on this variable: HB kind wc n k w x[n] centre[n] -> restraint_potential(0), restraint_force(0)
+        double k = nf(), w = nf();
+        colvarvalue x = rd(proto), c = rd(proto);
+        colvarbias_restraint_harmonic *hb = NULL;
+        if (hb_cache.count(cv)) hb = hb_cache[cv];
+        else {
+          std::string bname = "hb" + cvm::to_str(nbias++);
+          std::string cstr = (proto.type() == colvarvalue::type_scalar) ? "0.0" :
+            ((proto.type() == colvarvalue::type_quaternion) ? "(1.0, 0.0, 0.0, 0.0)" :
+             ((proto.type() == colvarvalue::type_vector) ? cvm::to_str(proto) : "(1.0, 0.0, 0.0)"));
+          std::string bconf = "harmonic {\n  name " + bname + "\n  colvars " + cv->name + "\n  forceConstant 1.0\n  centers " + cstr + "\n}\n";
+          cvm::clear_error();
+          S.proxy->colvars->read_config_string(bconf);
+          hb = dynamic_cast<colvarbias_restraint_harmonic *>(cvm::bias_by_name(bname));
+          if (cvm::get_error()) hb = NULL;
+          cvm::clear_error();
+          hb_cache[cv] = hb;
+        }
+        if (!hb) { o << "nobias\n"; continue; }
+        hb->force_k = k; cv->width = w; cv->x = x; cv->x_reported = x; hb->colvar_centers[0] = c;
+        o << H(hb->restraint_potential(0)) << " " << vs_hex(hb->restraint_force(0)) << "\n";
+        cv->width = 1.0;
+      } else if (cmd == "FV") {
+        // finite-difference velocity: FV kind wc n dt xold[n] xnew[n] -> colvar::fdiff_velocity
+        double dt = nf();
+        colvarvalue xo = rd(proto), xn = rd(proto);
+        S.proxy->set_integration_timestep(dt);
+        o << vs_hex(cv->fdiff_velocity(xo, xn)) << "\n";
+        S.proxy->set_integration_timestep(1.0);
       } else {
         colvarvalue x = rd(proto);
         cv->wrap(x);
@@ -309,6 +389,38 @@ int main()
       cv->wrap(xw);
       o << H(per ? 1.0 : 0.0) << " " << H(per ? cv->period : 0.0) << " " << H(per ? cv->wrap_center : 0.0) << " "
         << H(cv->dist2(x1, x2)) << " " << vs_hex(cv->dist2_lgrad(x1, x2)) << " " << vs_hex(cv->dist2_rgrad(x1, x2)) << " " << vs_hex(xw) << "\n";
+    } else if (cmd == "HW") {
+      // real harmonic walls on a periodic distanceZ (P != 0) or on a distance (P == 0): HW P wc k w lk uk lo up x
+      // -> colvar_distance(0), restraint_potential(0), restraint_force(0)
+      double P = nf(), c = nf(), k = nf(), w = nf(), lk = nf(), uk = nf(), lo = nf(), up = nf(), xv = nf();
+      colvar *cv = NULL;
+      if (P != 0.0) {
+        char buf[256]; snprintf(buf, sizeof(buf), "%.17g %.17g", P, c);
+        char body[1024];
+        snprintf(body, sizeof(body), "  distanceZ {\n    main { atomNumbers 1 }\n    ref { dummyAtom (0,0,0) }\n    axis (0,0,1)\n    period %.17g\n    wrapAround %.17g\n  }\n", P, c);
+        cv = get_cv(std::string("per ") + buf, body);
+      } else {
+        cv = get_cv("cd distance 0", "  distance {\n    group1 { atomNumbers 1 }\n    group2 { atomNumbers 2 }\n  }\n");
+      }
+      if (!cv) { o << "noconfig\n"; continue; }
+      colvarbias_restraint_harmonic_walls *hw = NULL;
+      if (hw_cache.count(cv)) hw = hw_cache[cv];
+      else {
+        std::string bname = "hw" + cvm::to_str(nbias++);
+        std::string bconf = "harmonicWalls {\n  name " + bname + "\n  colvars " + cv->name + "\n  forceConstant 1.0\n  lowerWalls 0.0\n  upperWalls 1.0\n}\n";
+        cvm::clear_error();
+        S.proxy->colvars->read_config_string(bconf);
+        hw = dynamic_cast<colvarbias_restraint_harmonic_walls *>(cvm::bias_by_name(bname));
+        if (cvm::get_error()) hw = NULL;
+        cvm::clear_error();
+        hw_cache[cv] = hw;
+      }
+      if (!hw) { o << "nobias\n"; continue; }
+      hw->force_k = k; hw->lower_wall_k = lk; hw->upper_wall_k = uk;
+      hw->lower_walls[0] = colvarvalue(lo); hw->upper_walls[0] = colvarvalue(up);
+      cv->width = w; cv->x = colvarvalue(xv); cv->x_reported = colvarvalue(xv);
+      o << H(hw->colvar_distance(0)) << " " << H(hw->restraint_potential(0)) << " " << vs_hex(hw->restraint_force(0)) << "\n";
+      cv->width = 1.0;
     } else if (cmd == "MR") {
       // moving harmonic restraint on a periodic distanceZ: MR P c x0 x1 lambda...  -> the centre after update_centers(lambda), for each lambda
       double P = nf(), c = nf(), x0 = nf(), x1 = nf();
@@ -375,6 +487,14 @@ int main()
           std::vector<std::string> confs(1, std::string(conf));
           cvm::clear_error();
           if (cv->update_cvc_config(confs) != COLVARS_OK) out += " moderr";
+          cvm::clear_error();
+        } else if (op == "S") {
+          // run-time change through the engine-side API colvar::set_cvc_param -> cvc::set_param (it changes the parameter and
+          // then reports "cannot be modified" from colvarparams::set_param; the error is cleared here)
+          double P = nf(), c = nf();
+          cvm::clear_error();
+          cv->set_cvc_param("period", reinterpret_cast<void const *>(&P));
+          cv->set_cvc_param("wrapAround", reinterpret_cast<void const *>(&c));
           cvm::clear_error();
         } else if (op == "W") {
           colvarvalue x(nf()); cv->wrap(x); out += " " + vs_hex(x);
